@@ -279,7 +279,15 @@ def gen_program_x86(rng, feat, bits=32):
         else:
             r = reg32
         addr = data_addr(size)
-        kind = rng.choice(["store", "store", "load", "load", "rmw", "rmw_imm"])
+        kind = rng.choice(["store", "store", "load", "load", "rmw", "rmw_imm", "two_mem"])
+        if kind == "two_mem":
+            # instructions that read one location and write another one
+            k2 = rng.choice(["push_mem", "pop_mem", "movs"]) if "stack" in feat else "movs"
+            if k2 == "push_mem":
+                return "PUSH %s PTR [0x%x]\nPOP %s" % (W, data_addr(4), reg32)
+            if k2 == "pop_mem":
+                return "PUSH %s\nPOP %s PTR [0x%x]" % (reg32, W, data_addr(4))
+            return "MOV ESI, 0x%x\nMOV EDI, 0x%x\n%s" % (data_addr(4), data_addr(4), rng.choice(["MOVSB", "MOVSD", "MOVSW"]))
         if kind == "store":
             return "MOV %s PTR [0x%x], %s" % (ptr, addr, r)
         if kind == "load":
@@ -295,7 +303,7 @@ def gen_program_x86(rng, feat, bits=32):
             if r < 0.40 or not feat:
                 out.append(alu(regs))
             elif r < 0.62 and "mem" in feat:
-                out.append(mem(regs))
+                out.extend(mem(regs).split("\n"))
             elif r < 0.70 and "stack" in feat:
                 a, b = rng.choice(regs), rng.choice(regs)
                 out.append("PUSH %s" % a)
